@@ -481,3 +481,86 @@ pub fn c16() -> Outcome {
     }
     Outcome { cases: n, distinct: d.len(), fail: None }
 }
+
+pub fn c02() -> Outcome {
+    let mut n = 0; let mut d = BTreeSet::new();
+    let mut ops: Vec<Function> = plain_functions();
+    ops.push(f_of(F::Constant(0.0))); ops.push(f_of(F::Constant(-2.0)));
+    ops.push(f_of(F::Linear(lin(&[(2, -3.0), (1, -7.0)], -1.0))));                       // cancels against plain_functions()[1]
+    ops.push(f_of(F::Polynomial(poly(&[(&[2, 1], 1.0), (&[2, 2], -0.5), (&[3, 3, 3], -0.5)]))));
+    let deg = |f: &Function| -> usize { match f.function.as_ref() { Some(F::Constant(_)) | None => 0, Some(F::Linear(_)) => 1, Some(F::Quadratic(_)) => 2, Some(F::Polynomial(p)) => p.terms.iter().map(|t| t.ids.len()).max().unwrap_or(0), Some(_) => 0 } };
+    let check = |what: &str, r: &Function, a: &Function, b: Option<&Function>, f: &dyn Fn(f64, f64) -> f64| -> Result<(), String> {
+        let allowed: BTreeSet<u64> = ref_ids(a).union(&b.map(ref_ids).unwrap_or_default()).cloned().collect();
+        if !ref_ids(r).is_subset(&allowed) { return Err(format!("{what}: result mentions ids {:?} outside the operands' ids {allowed:?}", ref_ids(r))); }
+        for s in states5() {
+            let va = ref_val(a, &s).unwrap(); let vb = b.map(|b| ref_val(b, &s).unwrap()).unwrap_or(0.0);
+            let want = f(va, vb); let got = ref_val(r, &s).ok_or("result cannot be evaluated")?;
+            if !close(got, want) { return Err(format!("{what}: a={a:?} b={b:?}: result {r:?} evaluates to {got} at {s:?}, the polynomial {what} of the operands is {want}")); }
+            // term iterator: (sorted ids, coefficient) pairs summing to the polynomial
+            let mut it = 0.0; for (ids, c) in r { if ids.windows(2).any(|w| w[0] > w[1]) { return Err(format!("{what}: term iterator yields unsorted ids {:?}", &ids[..])); } it += c * ids.iter().map(|i| s[i]).product::<f64>(); }
+            if !close(it, got) { return Err(format!("{what}: the term iterator of {r:?} sums to {it} at {s:?}, the function evaluates to {got}")); }
+        }
+        Ok(())
+    };
+    for (ai, a) in ops.iter().enumerate() {
+        n += 1; d.insert((ai, usize::MAX));
+        if let Err(e) = check("negation", &(-a.clone()), a, None, &|x, _| -x) { fail!(n, d, "{e}"); }
+        if let Err(e) = check("scalar multiple (2.5 * a)", &(2.5 * a.clone()), a, None, &|x, _| 2.5 * x) { fail!(n, d, "{e}"); }
+        if let Err(e) = check("scalar multiple (a * -0.5)", &(a.clone() * -0.5), a, None, &|x, _| -0.5 * x) { fail!(n, d, "{e}"); }
+        if let Err(e) = check("scalar sum (a + 1.5)", &(a.clone() + 1.5), a, None, &|x, _| x + 1.5) { fail!(n, d, "{e}"); }
+        for (bi, b) in ops.iter().enumerate() {
+            n += 1; d.insert((ai, bi));
+            if ai == 3 && bi == 5 { note(|| format!("a + b, a - b, a * b, b * a for a={a:?} b={b:?}")); }
+            if let Err(e) = check("sum", &(a.clone() + b.clone()), a, Some(b), &|x, y| x + y) { fail!(n, d, "{e}"); }
+            if let Err(e) = check("difference", &(a.clone() - b.clone()), a, Some(b), &|x, y| x - y) { fail!(n, d, "{e}"); }
+            if deg(a) + deg(b) <= 6 {
+                let p = a.clone() * b.clone();
+                if let Err(e) = check("product", &p, a, Some(b), &|x, y| x * y) { fail!(n, d, "{e}"); }
+                let q = b.clone() * a.clone();
+                for s in states5() { if !close(ref_val(&p, &s).unwrap(), ref_val(&q, &s).unwrap()) { fail!(n, d, "a*b and b*a differ for a={a:?} b={b:?}"); } }
+            }
+            // typed leaves
+            match (a.function.clone().unwrap(), b.function.clone().unwrap()) {
+                (F::Linear(x), F::Linear(y)) => {
+                    if let Err(e) = check("Linear + Linear", &Function::from(x.clone() + y.clone()), a, Some(b), &|p, q| p + q) { fail!(n, d, "{e}"); }
+                    if let Err(e) = check("Linear * Linear", &Function::from(x * y), a, Some(b), &|p, q| p * q) { fail!(n, d, "{e}"); }
+                }
+                (F::Quadratic(x), F::Linear(y)) => {
+                    if let Err(e) = check("Quadratic + Linear", &Function::from(x.clone() + y.clone()), a, Some(b), &|p, q| p + q) { fail!(n, d, "{e}"); }
+                    if let Err(e) = check("Quadratic * Linear", &Function::from(x * y), a, Some(b), &|p, q| p * q) { fail!(n, d, "{e}"); }
+                }
+                (F::Quadratic(x), F::Quadratic(y)) => {
+                    if let Err(e) = check("Quadratic + Quadratic", &Function::from(x.clone() + y.clone()), a, Some(b), &|p, q| p + q) { fail!(n, d, "{e}"); }
+                    if let Err(e) = check("Quadratic * Quadratic", &Function::from(x * y), a, Some(b), &|p, q| p * q) { fail!(n, d, "{e}"); }
+                }
+                (F::Polynomial(x), F::Linear(y)) => {
+                    if let Err(e) = check("Polynomial + Linear", &Function::from(x.clone() + y.clone()), a, Some(b), &|p, q| p + q) { fail!(n, d, "{e}"); }
+                    if let Err(e) = check("Polynomial * Linear", &Function::from(x * y), a, Some(b), &|p, q| p * q) { fail!(n, d, "{e}"); }
+                }
+                (F::Polynomial(x), F::Quadratic(y)) => {
+                    if let Err(e) = check("Polynomial + Quadratic", &Function::from(x.clone() + y.clone()), a, Some(b), &|p, q| p + q) { fail!(n, d, "{e}"); }
+                    if let Err(e) = check("Polynomial * Quadratic", &Function::from(x * y), a, Some(b), &|p, q| p * q) { fail!(n, d, "{e}"); }
+                }
+                (F::Polynomial(x), F::Polynomial(y)) => {
+                    if let Err(e) = check("Polynomial + Polynomial", &Function::from(x.clone() + y.clone()), a, Some(b), &|p, q| p + q) { fail!(n, d, "{e}"); }
+                    if let Err(e) = check("Polynomial * Polynomial", &Function::from(x * y), a, Some(b), &|p, q| p * q) { fail!(n, d, "{e}"); }
+                }
+                _ => {}
+            }
+        }
+    }
+    // decision variables and parameters as operands
+    {
+        n += 1;
+        let x = dv(1, Kind::Continuous, None); let y = dv(2, Kind::Continuous, None);
+        let mut p = v1::Parameter::default(); p.id = 3;
+        let fx = f_of(F::Linear(lin(&[(1, 1.0)], 0.0))); let fp = f_of(F::Linear(lin(&[(3, 1.0)], 0.0)));
+        let fy = f_of(F::Linear(lin(&[(2, 1.0)], 0.0)));
+        let g = ops[4].clone();
+        if let Err(e) = check("parameter * function", &(&p * g.clone()), &fp, Some(&g), &|a, b| a * b) { fail!(n, d, "{e}"); }
+        if let Err(e) = check("variable + variable", &Function::from(&x + &y), &fx, Some(&fy), &|a, b| a + b) { fail!(n, d, "{e}"); }
+        if let Err(e) = check("variable * variable", &Function::from(&x * &y), &fx, Some(&fy), &|a, b| a * b) { fail!(n, d, "{e}"); }
+        if let Err(e) = check("parameter + variable", &Function::from(&p + &x), &fp, Some(&fx), &|a, b| a + b) { fail!(n, d, "{e}"); }
+    }
+    Outcome { cases: n, distinct: d.len(), fail: None }
+}
